@@ -17,11 +17,19 @@ import tempfile
 from harness import c10_lib as L10
 from harness.common import g_N, g_nat, g_bool, g_list, g_opt, g_pair
 
-SEGMENTS = ["a.txt", "b.txt", "c.txt", "d", "e", "p", "q.txt", "x.txt", "m.py", "n.py", "k.py", "z.pyc", "y.txt"]
+SEGMENTS = ["a.txt", "b.txt", "c.txt", "d", "e", "p", "q.txt", "x.txt", "m.py", "n.py", "k.py", "z.pyc", "y.txt",
+            "d.txt", "b.txt2", "d2"]
 SEG_ID = {s: i + 1 for i, s in enumerate(SEGMENTS)}
 
+# Names are chosen so that DIFFERENT, NOT nested resources share leading characters: the file d.txt and the
+# folder d (and e / e.txt never meet), the files b.txt and b.txt2 in one folder, the folders d and d2 (with
+# d2/q.txt): a dependency test working on characters instead of path segments confuses them.
+AFILE = "d.txt"        # the top-level text file (edited, moved into / out of the folder)
+XFILE = "b.txt2"       # the file created next to b.txt
+NFOLDER = "d2"         # the folder created by the nested set
+
 TREE0 = {
-    "a.txt": "A\n",
+    AFILE: "A\n",
     "d": None,
     "d/b.txt": "B\n",
     "m.py": "def f():\n    return 1\n",
@@ -46,7 +54,7 @@ def resolve(letter, snap, tag, project):
     from rope.base import change as ch
     desc = "cs%d" % tag
     folder = _first(snap, ["d", "e"], "d")
-    afile = _first(snap, ["a.txt", "d/a.txt", "e/a.txt"], "a.txt")
+    afile = _first(snap, [AFILE, "d/" + AFILE, "e/" + AFILE], AFILE)
 
     def CS(*children):
         cs = ch.ChangeSet(desc)
@@ -60,21 +68,21 @@ def resolve(letter, snap, tag, project):
         return CS(ch.ChangeContents(project.get_file(folder + "/b.txt"), "b%d\n" % tag))
     if letter == "CF":
         if tag % 2:
-            return CS(ch.CreateFile(project.get_folder(folder), "x.txt"))
-        return CS(ch.CreateResource(project.get_file(folder + "/x.txt")))
+            return CS(ch.CreateFile(project.get_folder(folder), XFILE))
+        return CS(ch.CreateResource(project.get_file(folder + "/" + XFILE)))
     if letter == "MF":
-        if afile == "a.txt":
-            return CS(ch.MoveResource(project.get_file("a.txt"), folder))       # rope computes folder/a.txt
-        return CS(ch.MoveResource(project.get_file(afile), "a.txt"))
+        if afile == AFILE:
+            return CS(ch.MoveResource(project.get_file(AFILE), folder))       # rope computes folder/d.txt
+        return CS(ch.MoveResource(project.get_file(afile), AFILE))
     if letter == "MD":
         src, dst = ("d", "e") if folder == "d" else ("e", "d")
         return CS(ch.MoveResource(project.get_folder(src), dst))
     if letter == "NS":
         inner = ch.ChangeSet("cs%d" % (tag * 100 + 1))
-        inner.add_change(ch.CreateResource(project.get_file("p/q.txt")))
-        inner.add_change(ch.ChangeContents(project.get_file("p/q.txt"), "Q%d\n" % tag))
+        inner.add_change(ch.CreateResource(project.get_file(NFOLDER + "/q.txt")))
+        inner.add_change(ch.ChangeContents(project.get_file(NFOLDER + "/q.txt"), "Q%d\n" % tag))
         mid = ch.ChangeSet("cs%d" % (tag * 100 + 2))
-        mid.add_change(ch.CreateFolder(project.root, "p"))
+        mid.add_change(ch.CreateFolder(project.root, NFOLDER))
         mid.add_change(inner)
         return CS(ch.ChangeContents(project.get_file(afile), "n%d\n" % tag), mid)
     if letter == "RN":
@@ -90,7 +98,7 @@ def resolve(letter, snap, tag, project):
     if letter == "EMPTY":
         return CS()
     if letter == "RMX":
-        target = _first(snap, [folder + "/x.txt", "c.txt", afile], afile)
+        target = _first(snap, [folder + "/" + XFILE, "c.txt", afile], afile)
         return CS(ch.ChangeContents(project.get_file(folder + "/b.txt"), "r%d\n" % tag),
                   ch.RemoveResource(project.get_file(target)))
     if letter == "OVW":
@@ -98,9 +106,9 @@ def resolve(letter, snap, tag, project):
         return CS(ch.MoveResource(project.get_file(afile), folder + "/b.txt", exact=True))
     if letter == "ALIAS":
         # a folder created where a file has been moved away from (or the other way round)
-        if "a.txt" in snap:
+        if AFILE in snap:
             return CS(ch.CreateResource(project.get_file("y.txt")))
-        return CS(ch.CreateResource(project.get_folder("a.txt")))
+        return CS(ch.CreateResource(project.get_folder(AFILE)))
     if letter == "LEAF":
         return ch.ChangeContents(project.get_file(afile), "l%d\n" % tag)     # top-level leaf change
     raise ValueError(letter)
